@@ -38,6 +38,8 @@ impl EventStore {
             .truncate(false)
             .create(true)
             .open(event_map_file)?;
+        #[cfg(feature = "verif")]
+        crate::verif::point("es_new:opened");
 
         // Get it's size
         let metadata = event_map_file.metadata()?;
@@ -65,9 +67,13 @@ impl EventStore {
             len = EVENT_MAP_CHUNK;
             event_map_file.set_len(EVENT_MAP_CHUNK as u64)?;
         }
+        #[cfg(feature = "verif")]
+        crate::verif::point("es_new:sized");
 
         // Memory map it
         let event_map = unsafe { MmapAppend::new(&event_map_file, new)? };
+        #[cfg(feature = "verif")]
+        crate::verif::point("es_new:mapped");
 
         Ok(EventStore {
             event_map_file,
@@ -99,21 +105,38 @@ impl EventStore {
     pub(crate) fn store_event(&self, event: &Event) -> Result<usize, Error> {
         // Align to 8 bytes
         let mut end = self.event_map.get_end();
+        #[cfg(feature = "verif")]
+        crate::verif::point("es_store:start");
         if end % 8 != 0 {
             let padding = 8 - (end % 8);
             end += padding;
             assert_eq!(end % 8, 0);
             let _ = self.event_map.append(padding, |_| Ok(padding))?;
         }
+        #[cfg(feature = "verif")]
+        crate::verif::point("es_store:padded");
 
         let event_size = event.len();
 
         loop {
             let result = self.event_map.append(event_size, |dst| {
+                #[cfg(feature = "verif")]
+                {
+                    // a crash in the middle of the copy: half of the bytes are in place
+                    let half = event_size / 2;
+                    dst[..half].copy_from_slice(&event.as_bytes()[..half]);
+                    crate::verif::point("es_store:half_copied");
+                }
                 event.copy(dst).map_err(std::io::Error::other)
             });
 
             match result {
+                #[cfg(feature = "verif")]
+                Ok(offset) => {
+                    crate::verif::point("es_store:appended");
+                    return Ok(offset);
+                }
+                #[cfg(not(feature = "verif"))]
                 Ok(offset) => return Ok(offset),
                 Err(e) => {
                     if e.kind() == std::io::ErrorKind::Other {
@@ -124,11 +147,17 @@ impl EventStore {
                                 file_len + EVENT_MAP_CHUNK
                             };
 
+                            #[cfg(feature = "verif")]
+                            crate::verif::point("es_store:grow");
                             // Grow the file
                             self.event_map_file.set_len(new_file_len as u64)?;
+                            #[cfg(feature = "verif")]
+                            crate::verif::point("es_store:grow_setlen");
 
                             // Resize the memory map
                             self.event_map.resize(new_file_len)?;
+                            #[cfg(feature = "verif")]
+                            crate::verif::point("es_store:grow_resized");
 
                             // Save this new length
                             self.event_map_file_len
